@@ -42,7 +42,8 @@ def gen_case(rng, tier, idx):
                      dict(kind='fn', base=rng.choice((0.0, -1.0, 1.0)), spread=0.25)))
     cfg = dict(learner=rng.choice(LEARNERS), episodes=rng.randint(1, 6), step_size=rng.choice((0, 0.1, 0.5, 1.0, 0.3)),
                rand_choose=rng.choice((0, 0.0, 0.1, 0.5, 1.0)), softmax_temp=temp, q0=q0, seed=rng.choice((0, 1, 7, 12345)),
-               reentrant=rng.random() < 0.25, reuse=rng.randrange(1000) if rng.random() < 0.15 else None)
+               reentrant=rng.random() < 0.25, reuse=rng.randrange(1000) if rng.random() < 0.15 else None,
+               alias=rng.choice(('fresh', 'fresh', 'cached', 'shared')))
     plain = idx % 4 == 0     # fault-free baseline quarter
     sched = gen_sched(rng, ('P',) if plain else ('P', 'U', 'R', 'X'), thresholds=(0.5, float(cfg['rand_choose'])))
     if plain:
@@ -77,7 +78,7 @@ def execute(case, script=None):
 
 
 def _execute(td, view, cfg, ctx, sched):
-    mdp = make_mdp(view, ctx)
+    mdp = make_mdp(view, ctx, alias=cfg.get('alias', 'fresh'))
     g = view.gamma
     alpha, eps, temp = cfg['step_size'], cfg['rand_choose'], cfg['softmax_temp']
     q0f, q0arg = q0_fn(cfg, view)
@@ -232,7 +233,7 @@ def _execute(td, view, cfg, ctx, sched):
                 state['main'] = False
                 sview = MDPView(sib)
                 W0, ctx.W = ctx.W, game_W(sview)
-                learner.train_on(make_mdp(sview, ctx))
+                learner.train_on(make_mdp(sview, ctx, alias=cfg.get('alias', 'fresh')))
                 ctx.W = W0
                 state['main'] = True
             res = learner.train_on(mdp)
